@@ -277,6 +277,9 @@ func (m *Machine) runDefers(fr *frame) {
 }
 
 func (m *Machine) callValue(f FuncV, args []Value, caller *frame, cc *ssa.CallCommon) Value {
+	if f.native != nil {
+		return f.native(m, args)
+	}
 	if f.bi != nil {
 		return m.builtin(f.bi, args, caller, cc)
 	}
